@@ -265,7 +265,7 @@ class export_string_stage_step:
     the cells of its selected nodes, in the order of the nodes (C06: a projection, nothing reordered, nothing invented); it is added
     to the rows iff it has a cell and not all its cells are placeholders (C03 / C05: lines left with only placeholders are dropped);
     the rows collected before are untouched.  What a cell is: contract append_row."""
-    step = 'for stage in range(from_stage, to_stage + 1)'
+    step = 'for stage in range('
     uses = ('append_row_summary',)
     assumes = (A_ROW,)
 
